@@ -8,8 +8,9 @@ package main
 //       decodes to the zero value
 //   g2  pointers are flattened: a nil pointer is not sent; a pointer to a basic value that is zero is not sent either
 //       and comes back nil; a non-nil pointer to a struct comes back non-nil even when the struct is all zero
-//   g3  a slice or map field of length 0 is not sent and comes back nil; elements of slices and maps are always sent,
-//       but an element that is itself an empty slice comes back nil
+//   g3  a slice field of length 0 is not sent and comes back nil; a map field is kept as it is (nil stays nil, an empty
+//       map comes back empty); elements of slices and maps are always sent, but an element that is itself an empty
+//       slice comes back nil (an empty map element comes back as an empty map)
 //   g4  a type with GobEncode/GobDecode methods travels as the bytes those methods produce
 //   g5  an interface value travels with its dynamic type, which must be registered; free-form payloads follow g3
 //       (an empty []interface{} inside a payload comes back nil)
@@ -142,11 +143,8 @@ func (g *gobScan) fieldPosition(name, where string, t types.Type, omitempty bool
 		}
 		g.element(where+"[]", tt.Elem())
 	case *types.Map:
-		if omitempty || hasMethod(g.l.prog, t, "MarshalJSON") {
-			g.obl(name, src, true, "")
-		} else {
-			g.obl(name, src, false, fmt.Sprintf("%s: an empty map comes back nil; without omitempty its JSON changes from {} to null", where))
-		}
+		// g3: a nil map is not sent and stays nil, a non-nil map is sent even when empty: nothing is altered at the field
+		g.obl(name, src, true, "")
 		g.element(where+"[]", tt.Elem())
 	case *types.Interface:
 		// g5: free-form payload
@@ -174,9 +172,11 @@ func (g *gobScan) element(where string, t types.Type) {
 	case *types.Struct:
 		g.obl(name, src, true, "")
 		g.position(where, t, false, false)
-	case *types.Slice, *types.Map:
-		// g3: an empty container as an element comes back nil: [] becomes null unless a custom codec pads it
-		g.obl(name, src, false, fmt.Sprintf("%s: an element that is an empty %s comes back nil: its JSON changes from []/{} to null", where, shortType(t)))
+	case *types.Map:
+		g.obl(name, src, true, "")
+	case *types.Slice:
+		// g3: an empty slice as an element comes back nil: [] becomes null unless a custom codec pads it
+		g.obl(name, src, false, fmt.Sprintf("%s: an element that is an empty %s comes back nil: its JSON changes from [] to null", where, shortType(t)))
 	case *types.Interface:
 		g.obl(name, src, false, fmt.Sprintf("%s: a free-form payload holding an empty array comes back with null in its place", where))
 	case *types.Pointer:
